@@ -255,6 +255,7 @@ v("C15", "end-bound-nonstrict", WD, "if self.endtime is not None and time > self
 v("C15", "twin-window-verdict-as-expression", WD, "        if self.endtime is not None and time > self.endtime:\n            return False\n        return True\n",
   "        return not (self.endtime is not None and time > self.endtime)\n", expect="silent")
 v("C15", "twin-window-bounds-swapped-operands", WD, "if self.starttime is not None and time < self.starttime:", "if not (self.starttime is None or self.starttime <= time):", expect="silent")
+v("C15", "directory-events-not-dropped", WD, "        if self.ignore_directories and event.is_directory:\n            return\n", "        if self.ignore_directories and event.is_directory:\n            pass\n", rules=["C15.R3"])
 v("C15", "unguarded-group", WD, "        try:\n            msecs = int(match.group(\"frac\"))\n        except (IndexError, TypeError):\n            msecs = 0\n",
   "        msecs = int(match.group(\"frac\"))\n", rules=["C15.R5"])
 
